@@ -11,6 +11,8 @@ pub mod c11;
 pub mod c12;
 pub mod c13;
 pub mod c14;
+pub mod c15;
+pub mod c16;
 pub mod c05;
 pub mod c06;
 
@@ -29,6 +31,8 @@ pub fn lookup(id: &str) -> Option<Box<dyn Prop>> {
         "C09" => Some(Box::new(c09::C09)),
         "C13" => Some(Box::new(c13::C13)),
         "C14" => Some(Box::new(c14::C14)),
+        "C15" => Some(Box::new(c15::C15)),
+        "C16" => Some(Box::new(c16::C16)),
         _ => None,
     }
 }
